@@ -1,7 +1,7 @@
 // ---- CHECKED: routing, from the statements of C01 and C04, over the router's trie ----
 
 /// Representation invariant of the trie that `lookup_route` relies on (its two `assert!`s) and that
-/// `HttpRouter::insert` is meant to maintain (ASSUMED here: `insert` is out of reach):
+/// `HttpRouter::insert` maintains (proved in unit V14; `HttpRouter::new` establishes it: unit V10):
 ///  * a wildcard (`VariableRest`) child is terminal: it has no outgoing edges;
 ///  * method names stored in a node are legal header values (they are upper-cased HTTP method names);
 ///  * the version range of every stored endpoint is an ordered pair (the type invariant of OrderedVersionPair);
